@@ -946,50 +946,45 @@ def shards_delta(shards, other_shards):
     """
     Yield shards1 with cviews that are the same as shards2 having canv = None.
     """
-    # pylint: disable=stop-iteration-return
-    other_shards_iter = iter(other_shards)
-    other_num_rows = other_cviews = None
-    done = other_done = 0
+    # index the cviews of other_shards by the (row, column) of their top-left cell
+    other_cviews = {}
+    for row, cols, (_num_rows, cviews) in shards_cview_positions(other_shards):
+        other_cviews.update(((row, col), cv) for col, cv in zip(cols, cviews))
+
+    for row, cols, (num_rows, cviews) in shards_cview_positions(shards):
+        yield (num_rows, shard_cviews_delta(cviews, [other_cviews.get((row, col)) for col in cols]))
+
+
+def shards_cview_positions(shards):
+    """
+    Yield (row, [column of each cview], shard) for every shard: the cell where each of
+    its cviews starts, counting the cviews that continue from earlier shards.
+    """
+    shard_tail = []
+    row = 0
     for num_rows, cviews in shards:
-        if other_num_rows is None:
-            other_num_rows, other_cviews = next(other_shards_iter)
-        while other_done < done:
-            other_done += other_num_rows
-            other_num_rows, other_cviews = next(other_shards_iter)
-        if other_done > done:
-            yield (num_rows, cviews)
-            done += num_rows
-            continue
-        # top-aligned shards, compare each cview
-        yield (num_rows, shard_cviews_delta(cviews, other_cviews))
-        other_done += other_num_rows
-        other_num_rows = None
-        done += num_rows
+        sbody = shard_body(cviews, shard_tail, False)
+        shard_tail = shard_body_tail(num_rows, sbody)
+        col = 0
+        cols = []
+        for done_rows, _content_iter, cv in sbody:
+            if not done_rows:
+                cols.append(col)
+            col += cv[2]
+        yield row, cols, (num_rows, cviews)
+        row += num_rows
 
 
 def shard_cviews_delta(cviews, other_cviews):
-    # pylint: disable=stop-iteration-return
-    other_cviews_iter = iter(other_cviews)
-    other_cv = None
-    cols = other_cols = 0
-    for cv in cviews:
-        if other_cv is None:
-            other_cv = next(other_cviews_iter)
-        while other_cols < cols:
-            other_cols += other_cv[2]
-            other_cv = next(other_cviews_iter)
-        if other_cols > cols:
-            yield cv
-            cols += cv[2]
-            continue
-        # top-left-aligned cviews, compare them
-        if cv[5] is other_cv[5] and cv[:5] == other_cv[:5]:
+    """
+    Yield cviews with canv = None where other_cviews holds the identical cview
+    (other_cviews[i] is the cview starting at the same cell of the other canvas, or None).
+    """
+    for cv, other_cv in zip(cviews, other_cviews):
+        if other_cv is not None and cv[5] is other_cv[5] and cv[:5] == other_cv[:5]:
             yield cv[:5] + (None,) + cv[6:]
         else:
             yield cv
-        other_cols += other_cv[2]
-        other_cv = None
-        cols += cv[2]
 
 
 def shard_body(cviews, shard_tail, create_iter: bool = True, iter_default=None):
